@@ -980,20 +980,38 @@ def rule_r6(prog, res) -> None:
         fn = fi.node
         seen = set()
         for env, p in _measure_paths(prog, fi):
-            comp = p.value
-            if not (isinstance(comp, ast.ListComp) and len(comp.generators) == 1 and isinstance(comp.generators[0].iter, ast.Call) and (dotted(comp.generators[0].iter.func) or "") == "zip"):
+            from .. import symx as _sx
+
+            comp = _sx.strip_wrappers(p.value) if p.value is not None else None
+            var2src: dict = {}
+            if isinstance(comp, ast.ListComp) and len(comp.generators) == 1 and isinstance(comp.generators[0].iter, ast.Call) and (dotted(comp.generators[0].iter.func) or "") == "zip":
+                ctor = comp.elt
+                tgt = comp.generators[0].target
+                loopvars = [e.id for e in (tgt.elts if isinstance(tgt, ast.Tuple) else [tgt])]
+                var2src = dict(zip(loopvars, comp.generators[0].iter.args))
+            elif isinstance(comp, ast.List) and len(comp.elts) == 1 and isinstance(comp.elts[0], ast.Starred) and isinstance(comp.elts[0].value, ast.Call) and isinstance(comp.elts[0].value.func, ast.Name) and comp.elts[0].value.func.id == _sx.LOOP and comp.elts[0].value.args:
+                ctor = comp.elts[0].value.args[0]  # the loop form: result.append(CorrFunc(...)) for each element of zip(...)
+            else:
                 raise AnalysisError(f"C01.R6: CorrFunc list comprehension in {name} not recognised")
-            ctor = comp.elt
             if not (isinstance(ctor, ast.Call) and (dotted(ctor.func) or "").split(".")[-1] == "CorrFunc"):
                 raise AnalysisError(f"C01.R6: CorrFunc construction in {name} not found")
-            tgt = comp.generators[0].target
-            loopvars = [e.id for e in (tgt.elts if isinstance(tgt, ast.Tuple) else [tgt])]
-            var2src = dict(zip(loopvars, comp.generators[0].iter.args))
+
+            def source_of(a):
+                if isinstance(a, ast.Name):
+                    return var2src.get(a.id)
+                if isinstance(a, ast.Subscript) and isinstance(a.slice, ast.Constant) and isinstance(a.slice.value, int):
+                    z = a.value
+                    if isinstance(z, ast.Call) and isinstance(z.func, ast.Name) and z.func.id == _sx.ELEM and z.args:
+                        z = _sx.strip_wrappers(z.args[0])
+                        if isinstance(z, ast.Call) and (dotted(z.func) or "") == "zip" and a.slice.value < len(z.args):
+                            return z.args[a.slice.value]
+                return None
+
             given = list(zip(slots, ctor.args)) + [(k.arg, k.value) for k in ctor.keywords if k.arg in slots]
             for slot, a in given:
                 if isinstance(a, ast.Constant) and a.value is None:
                     continue
-                src = var2src.get(a.id) if isinstance(a, ast.Name) else None
+                src = source_of(a)
                 if not (isinstance(src, ast.Call) and isinstance(src.func, ast.Attribute) and src.func.attr.startswith("count_pairs")):
                     raise AnalysisError(f"C01.R6: cannot trace slot {slot} of CorrFunc in {name}")
                 cats = _catalog_args(src, env)
